@@ -8003,7 +8003,7 @@ fn compare_wire_values(a: Option<&WireValue>, b: Option<&WireValue>) -> std::cmp
             (WireValue::Int64(a), WireValue::Int64(b)) => a.cmp(b),
             (WireValue::Int32(a), WireValue::Int32(b)) => a.cmp(b),
             (WireValue::Float64(a), WireValue::Float64(b)) => {
-                a.partial_cmp(b).unwrap_or(std::cmp::Ordering::Equal)
+                a.total_cmp(b)
             }
             (WireValue::String(a), WireValue::String(b)) => a.cmp(b),
             (WireValue::Bool(a), WireValue::Bool(b)) => a.cmp(b),
@@ -8012,12 +8012,8 @@ fn compare_wire_values(a: Option<&WireValue>, b: Option<&WireValue>) -> std::cmp
             (WireValue::Null, _) => std::cmp::Ordering::Less,
             (_, WireValue::Null) => std::cmp::Ordering::Greater,
             // Cross-type numeric comparison
-            (WireValue::Int64(a), WireValue::Float64(b)) => (*a as f64)
-                .partial_cmp(b)
-                .unwrap_or(std::cmp::Ordering::Equal),
-            (WireValue::Float64(a), WireValue::Int64(b)) => a
-                .partial_cmp(&(*b as f64))
-                .unwrap_or(std::cmp::Ordering::Equal),
+            (WireValue::Int64(a), WireValue::Float64(b)) => (*a as f64).total_cmp(b),
+            (WireValue::Float64(a), WireValue::Int64(b)) => a.total_cmp(&(*b as f64)),
             // Cross-type: use type discriminant for stable ordering
             _ => wire_value_type_rank(va).cmp(&wire_value_type_rank(vb)),
         },
